@@ -63,9 +63,23 @@ where
 
     fn call(&mut self, req: http::request::Parts) -> Self::Future {
         let config = self.config.clone();
-        let Some(host) = req.uri.host().map(String::from) else {
+        // IPv6 literals are bracketed in URIs, but not in TLS server names.
+        let Some(host) = req.uri.host().map(|host| {
+            host.trim_start_matches('[')
+                .trim_end_matches(']')
+                .to_owned()
+        }) else {
             return future::TlsConnectionFuture::error(TlsConnectionError::NoDomain);
         };
+
+        if rustls::pki_types::ServerName::try_from(host.as_str()).is_err() {
+            return future::TlsConnectionFuture::error(TlsConnectionError::Handshake(
+                std::io::Error::new(
+                    std::io::ErrorKind::InvalidInput,
+                    format!("invalid TLS server name: {host}"),
+                ),
+            ));
+        }
 
         let future = self.transport.connect(req);
 
